@@ -111,7 +111,7 @@ impl Interpreter {
     }
 
     pub fn from_transaction(tx: &Transaction, txin: usize) -> Result<Interpreter, InterpreterError> {
-        let script_bits = tx.get_input(txin).unwrap().get_finalised_script_impl()?.to_script_bits();
+        let script_bits = tx.get_input(txin).ok_or(InterpreterError::NoTxInProvided)?.get_finalised_script_impl()?.to_script_bits();
         Ok(Interpreter::from_transaction_and_script_bits(tx.clone(), txin, script_bits))
     }
 
